@@ -1,12 +1,15 @@
 (* C09/Model.v — executable model of xrspatial/focal.py (_mean_numpy / mean,
    _apply_numpy / apply, _focal_stats_cpu / focal_stats, _calc_hotspots_numpy,
    _hotspots_numpy) and xrspatial/convolution.py (_convolve_2d_numpy,
-   custom_kernel).  Definitions only.  The window kernels are polymorphic in
-   the cell type; the statistics are given over exact rationals with an
-   explicit NaN (xq = option Q, None = NaN). *)
+   custom_kernel).  Definitions only.  The window kernel is polymorphic in the
+   cell type; everything numerical is written ONCE against the arithmetic
+   record of Arith.v (float32 / float64 carriers, Numba's promotions spelled
+   out with widen / narrow) and used at two instances: ExactArith (option Q,
+   the theorems) and FloatArith (SpecFloat binary32 + PrimFloat binary64,
+   extracted and compared bit-for-bit with the implementation). *)
 Require Import Base.Prelude.
-From Coq Require Import QArith Qabs.
-Require Import C09.Generated.
+From Coq Require Import QArith Qabs PrimFloat SpecFloat.
+Require Import C09.Generated C09.Arith.
 Open Scope Z_scope.
 
 (* ------------------------------------------------------------------ *)
@@ -107,86 +110,62 @@ Definition focal_apply {T K} (nan zero : T) (kd : K) (is_one : K -> bool) (func 
   then Some (apply_numpy nan zero kd is_one func data kernel) else None.
 
 (* ------------------------------------------------------------------ *)
-(* exact cell values: rationals with NaN                                *)
+(* the numerical kernels, generic in the arithmetic                      *)
 (* ------------------------------------------------------------------ *)
-Definition xq := option Q.
+Section Kernels.
+  Variable A : Arith.
+  Notation S := (T32 A).
+  Notation D := (T64 A).
 
-Definition qltb (a b : Q) : bool := (Qnum a * QDen b <? Qnum b * QDen a).
-Definition qleb (a b : Q) : bool := (Qnum a * QDen b <=? Qnum b * QDen a).
+  Definition szero : S := narrow A (dofZ A 0).            (* float32 +0.0 *)
 
-Definition xlt (a b : xq) : bool :=
-  match a, b with Some x, Some y => qltb x y | _, _ => false end.
-Definition xgt (a b : xq) : bool :=
-  match a, b with Some x, Some y => qltb y x | _, _ => false end.
-Definition xadd (a b : xq) : xq :=
-  match a, b with Some x, Some y => Some (x + y)%Q | _, _ => None end.
-Definition xsub (a b : xq) : xq :=
-  match a, b with Some x, Some y => Some (x - y)%Q | _, _ => None end.
-Definition xdiv (a b : xq) : xq :=             (* the divisor is never 0 where this is used *)
-  match a, b with Some x, Some y => Some (x / y)%Q | _, _ => None end.
-Definition xscale (k : Q) (v : xq) : xq :=
-  match v with Some x => Some (k * x)%Q | None => None end.
-
-Fixpoint somes {A} (l : list (option A)) : list A :=
-  match l with
-  | [] => []
-  | Some a :: r => a :: somes r
-  | None :: r => somes r
-  end.
-
-(* the non-NaN values of an array in np.nditer (row-major) order *)
-Definition wvals (w : grid xq) : list Q := somes (concat w).
-Definition qsum (l : list Q) : Q := fold_left Qplus l 0%Q.
-
-Section Stats.
-  Variable qsqrt : Q -> Q.            (* x ** 0.5 — external *)
-
-  Definition calc_sum (w : grid xq) : xq := Some (qsum (wvals w)).
-  (* c / count; 0.0 / 0 = NaN *)
-  Definition calc_mean (w : grid xq) : xq :=
-    match wvals w with
-    | [] => None
-    | v => Some (qsum v / inject_Z (lenZ v))%Q
-    end.
-  (* numba nan_min_max_factory: return_val = first element; for the others:
+  (* ---- Numba's nan-reducers (numba/np/arraymath.py), np.nditer order = row-major ---- *)
+  (* np.nanmean:  c = 0.0; count = 0; for v: if not isnan(v): c += v.item(); count += 1
+                  return np.divide(c, count)            — float64 accumulator for every input type *)
+  Definition mean_acc {X} (isn : X -> bool) (cv : X -> D) (flat : list X) : D * Z :=
+    fold_left (fun st v => if isn v then st else (dadd A (fst st) (cv v), snd st + 1)) flat (dofZ A 0, 0).
+  Definition nanmean_gen {X} (isn : X -> bool) (cv : X -> D) (flat : list X) : D :=
+    let st := mean_acc isn cv flat in ddiv A (fst st) (dofZ A (snd st)).
+  Definition calc_mean (w : grid S) : D := nanmean_gen (sisnan A) (widen A) (concat w).
+  (* np.nansum: c = float32(0); for v: if not isnan(v): c += v     — float32 accumulator *)
+  Definition calc_sum (w : grid S) : S :=
+    fold_left (fun c v => if sisnan A v then c else sadd A c v) (concat w) szero.
+  (* nan_min_max_factory: return_val = first element; for the others:
        if not isnan(v): if not op(return_val, v): return_val = v          *)
-  Definition nan_min_max (op : xq -> xq -> bool) (flat : list xq) : xq :=
+  Definition nan_min_max (op : S -> S -> bool) (flat : list S) : S :=
     match flat with
-    | [] => None
+    | [] => snan A
     | r0 :: rest =>
-      fold_left (fun r v => match v with
-                            | None => r
-                            | Some _ => if negb (op r v) then v else r
-                            end) rest r0
+      fold_left (fun r v => if sisnan A v then r else if negb (op r v) then v else r) rest r0
     end.
-  Definition calc_min (w : grid xq) : xq := nan_min_max xlt (concat w).
-  Definition calc_max (w : grid xq) : xq := nan_min_max xgt (concat w).
-  Definition calc_range (w : grid xq) : xq :=
+  Definition calc_min (w : grid S) : S := nan_min_max (sltb A) (concat w).
+  Definition calc_max (w : grid S) : S := nan_min_max (fun a b => sltb A b a) (concat w).
+  Definition calc_range (w : grid S) : S :=
     let value_min := calc_min w in
     let value_max := calc_max w in
-    xsub value_max value_min.
-  (* m = nanmean(a); ssd = sum (v - m)^2; nan if count <= 0; ssd / count *)
-  Definition calc_var (w : grid xq) : xq :=
-    match calc_mean w with
-    | None => None
-    | Some m =>
-      let v := wvals w in
-      Some (qsum (map (fun x => (x - m) * (x - m))%Q v) / inject_Z (lenZ v))%Q
-    end.
-  Definition calc_std (w : grid xq) : xq :=
-    match calc_var w with
-    | None => None
-    | Some v => Some (qsqrt (Qred v))
-    end.
+    ssub A value_max value_min.
+  (* np.nanvar: m = nanmean(a); ssd = 0.0; for v: if not isnan(v): val = v.item() - m; ssd += val*val; count += 1
+                if count <= ddof: return nan;  return np.divide(ssd, count - ddof)     (ddof = 0) *)
+  Definition var_acc (m : D) (flat : list S) : D * Z :=
+    fold_left (fun st v => if sisnan A v then st
+                           else let val := dsub A (widen A v) m in
+                                (dadd A (fst st) (dmul A val val), snd st + 1)) flat (dofZ A 0, 0).
+  Definition calc_var (w : grid S) : D :=
+    let m := calc_mean w in
+    let st := var_acc m (concat w) in
+    if snd st <=? 0 then dnan A else ddiv A (fst st) (dofZ A (snd st)).
+  (* np.nanstd: nanvar ** 0.5 *)
+  Definition calc_std (w : grid S) : D := dsqrt A (calc_var w).
 
-  Definition reducer_of (p : prim) : grid xq -> xq :=
+  (* the reducer followed by the store  out[y, x] = func(kernel_values)  into the float32 output *)
+  Definition reducer_of (p : prim) : grid S -> S :=
     match p with
-    | PNanmean => calc_mean
+    | PNanmean => fun w => narrow A (calc_mean w)
     | PNansum => calc_sum
     | PNanmin => calc_min
     | PNanmax => calc_max
-    | PNanstd => calc_std
-    | PNanvar => calc_var
+    | PNanstd => fun w => narrow A (calc_std w)
+    | PNanvar => fun w => narrow A (calc_var w)
     | PRangeOfMinMax => calc_range
     end.
 
@@ -196,45 +175,43 @@ Section Stats.
     | (n, p) :: r => if stat_code n =? stat_code name then Some p else lookup name r
     end.
 
-  Definition is_one_q (k : Q) : bool := Qeq_bool k 1.
+  (* kernel[kyidx, kxidx] == 1  (float64 or integer kernel against the literal 1) *)
+  Definition is_one (k : D) : bool := deqb A k (dofZ A 1).
+
+  Definition focal_apply_A (func : grid S -> S) (data : grid S) (kernel : grid D) : option (grid S) :=
+    focal_apply (snan A) szero (dnan A) is_one func data kernel.
 
   (* _focal_stats_cpu: one apply per requested statistic, stacked in request order.
      None = KeyError (unknown name) or the kernel was rejected *)
-  Fixpoint focal_stats_cpu (data : grid xq) (kernel : grid Q) (stats_funcs : list stat_name)
-    : option (list (grid xq)) :=
+  Fixpoint focal_stats_cpu (data : grid S) (kernel : grid D) (stats_funcs : list stat_name)
+    : option (list (grid S)) :=
     match stats_funcs with
     | [] => Some []
     | s :: rest =>
       match lookup s function_mapping with
       | None => None
       | Some p =>
-        match focal_apply None (Some 0%Q) 0%Q is_one_q (reducer_of p) data kernel,
-              focal_stats_cpu data kernel rest with
+        match focal_apply_A (reducer_of p) data kernel, focal_stats_cpu data kernel rest with
         | Some layer, Some layers => Some (layer :: layers)
         | _, _ => None
         end
       end
     end.
-  Definition focal_stats (data : grid xq) (kernel : grid Q) (stats_funcs : list stat_name) :=
+  Definition focal_stats (data : grid S) (kernel : grid D) (stats_funcs : list stat_name) :=
     if custom_kernel_ok true (nrows kernel) (ncols kernel)
     then focal_stats_cpu data kernel stats_funcs else None.
 
   (* ---------------------------------------------------------------- *)
-  (* _mean_numpy(data, excludes) and mean(agg, passes, excludes)        *)
+  (* _mean_numpy(data, excludes) and mean(agg, passes, excludes): float64 *)
   (* ---------------------------------------------------------------- *)
   (* x == y or (isnan(x) and isnan(y)) *)
-  Definition equal_numpy (x y : xq) : bool :=
-    match x, y with
-    | Some a, Some b => Qeq_bool a b
-    | None, None => true
-    | _, _ => false
-    end.
+  Definition equal_numpy (x y : D) : bool := deqb A x y || (disnan A x && disnan A y).
   (* l[a:b] for 0 <= a *)
-  Definition slice {A} (l : list A) (a b : Z) : list A :=
+  Definition slice {X} (l : list X) (a b : Z) : list X :=
     firstn (Z.to_nat (b - a)) (skipn (Z.to_nat a) l).
 
-  Definition mean_cell (data : grid xq) (excludes : list xq) (rows cols y x : Z) : xq :=
-    let c := get2 None data y x in
+  Definition mean_cell (data : grid D) (excludes : list D) (rows cols y x : Z) : D :=
+    let c := get2 (dnan A) data y x in
     if existsb (fun ex => equal_numpy c ex) excludes then c
     else
       let left := Z.max (x - 1) 0 in
@@ -242,86 +219,150 @@ Section Stats.
       let bottom := Z.max (y - 1) 0 in
       let top := Z.min (y + 2) rows in
       let kernel_data := map (fun r => slice r left right) (slice data bottom top) in
-      calc_mean kernel_data.
-  Definition mean_numpy (data : grid xq) (excludes : list xq) : grid xq :=
+      nanmean_gen (disnan A) (fun v => v) (concat kernel_data).
+  Definition mean_numpy (data : grid D) (excludes : list D) : grid D :=
     let rows := nrows data in
     let cols := ncols data in
     map (fun y => map (fun x => mean_cell data excludes rows cols y x) (zrange 0 cols)) (zrange 0 rows).
   (* for i in range(passes): out = _mean(out, excludes) *)
-  Definition mean (data : grid xq) (passes : Z) (excludes : list xq) : grid xq :=
+  Definition mean (data : grid D) (passes : Z) (excludes : list D) : grid D :=
     fold_left (fun out _ => mean_numpy out excludes) (zrange 0 passes) data.
 
   (* ---------------------------------------------------------------- *)
-  (* _convolve_2d_numpy(data, kernel)                                   *)
+  (* _convolve_2d_numpy(data, kernel): float32 data, float64 accumulator *)
   (* ---------------------------------------------------------------- *)
   (* num = 0.0; for ii: iii = wkx + ii - i; for jj: jjj = wky + jj - j;
         num += kernel[iii, jjj] * data[ii, jj]                          *)
-  Definition conv_num (data : grid xq) (kernel : grid Q) (wkx wky i j iimin iimax jjmin jjmax : Z) : xq :=
+  Definition conv_num (data : grid S) (kernel : grid D) (wkx wky i j iimin iimax jjmin jjmax : Z) : D :=
     loop2 (fun num ii jj =>
              let iii := wkx + ii - i in
              let jjj := wky + jj - j in
-             xadd num (xscale (get2 0%Q kernel iii jjj) (get2 None data ii jj)))
-          (zrange iimin iimax) (zrange jjmin jjmax) (Some 0%Q).
-  Definition conv_step (data : grid xq) (kernel : grid Q) (nx ny wkx wky : Z)
-             (out : grid xq) (i j : Z) : grid xq :=
+             dadd A num (dmul A (get2 (dnan A) kernel iii jjj) (widen A (get2 (snan A) data ii jj))))
+          (zrange iimin iimax) (zrange jjmin jjmax) (dofZ A 0).
+  Definition conv_step (data : grid S) (kernel : grid D) (nx ny wkx wky : Z)
+             (out : grid S) (i j : Z) : grid S :=
     let iimin := Z.max (i - wkx) 0 in
     let iimax := Z.min (i + wkx + 1) nx in
     let jjmin := Z.max (j - wky) 0 in
     let jjmax := Z.min (j + wky + 1) ny in
-    set2 out i j (conv_num data kernel wkx wky i j iimin iimax jjmin jjmax).
-  Definition convolve_2d (data : grid xq) (kernel : grid Q) : grid xq :=
+    set2 out i j (narrow A (conv_num data kernel wkx wky i j iimin iimax jjmin jjmax)).
+  Definition convolve_2d (data : grid S) (kernel : grid D) : grid S :=
     let nx := nrows data in
     let ny := ncols data in
     let nkx := nrows kernel in
     let nky := ncols kernel in
     let wkx := nkx / 2 in
     let wky := nky / 2 in
-    let out := fill2 None nx ny in                      (* out[:] = np.nan *)
+    let out := fill2 (snan A) nx ny in                  (* out[:] = np.nan *)
     loop2 (conv_step data kernel nx ny wkx wky) (zrange wkx (nx - wkx)) (zrange wky (ny - wky)) out.
 
   (* ---------------------------------------------------------------- *)
-  (* _calc_hotspots_numpy and _hotspots_numpy                           *)
+  (* _calc_hotspots_numpy (float32 z-scores against float64 literals)    *)
   (* ---------------------------------------------------------------- *)
   (* if a >= t1: p1 elif a >= t2: p2 ... else dflt *)
-  Fixpoint p_of (a : Q) (ladder : list (Q * Q)) (dflt : Q) : Q :=
+  Fixpoint p_of (a : D) (ladder : list (Q * Q)) (dflt : D) : D :=
     match ladder with
     | [] => dflt
-    | (t, p) :: r => if qleb t a then p else p_of a r dflt
+    | (t, p) :: r => if dleb A (dconst A t) a then dconst A p else p_of a r dflt
     end.
   (* if a > t1 and p < q1: c1 elif ... else 0 *)
-  Fixpoint conf_of (a p : Q) (ladder : list (Q * Q * Z)) : Z :=
+  Fixpoint conf_of (a p : D) (ladder : list (Q * Q * Z)) : Z :=
     match ladder with
     | [] => 0
-    | (t, q, c) :: r => if qltb t a && qltb p q then c else conf_of a p r
+    | (t, q, c) :: r => if dltb A (dconst A t) a && dltb A p (dconst A q) then c else conf_of a p r
     end.
-  Definition hot_cell (zs : xq) : Z :=
-    match zs with
-    | None => 0          (* every comparison with NaN is false: p = 1, confidence = 0, hot_cold = 0 *)
-    | Some zscore =>
-      let a := Qabs zscore in
-      let p_value := p_of a p_ladder 1%Q in
-      let confidence := conf_of a p_value conf_ladder in
-      let hot_cold := if qltb 0 zscore then 1 else if qltb zscore 0 then -1 else 0 in
-      hot_cold * confidence
-    end.
-  Definition calc_hotspots (z_array : grid xq) : grid Z := map (map hot_cell) z_array.
+  Definition hot_cell (zscore : S) : Z :=
+    let a := widen A (sabs A zscore) in                      (* abs(zscore), promoted for the comparisons *)
+    let p_value := p_of a p_ladder (dconst A 1%Q) in
+    let confidence := conf_of a p_value conf_ladder in
+    let hot_cold := if dltb A (dofZ A 0) (widen A zscore) then 1
+                    else if dltb A (widen A zscore) (dofZ A 0) then -1 else 0 in
+    hot_cold * confidence.
+  Definition calc_hotspots (z_array : grid S) : grid Z := map (map hot_cell) z_array.
 
-  (* None = ZeroDivisionError (global_std == 0) *)
-  Definition hotspots_numpy (data : grid xq) (kernel : grid Q) : option (grid Z) :=
-    let ksum := qsum (concat kernel) in                                 (* kernel.sum() *)
-    let mean_array := convolve_2d data (map (map (fun k => k / ksum)%Q) kernel) in
-    let global_mean := calc_mean data in                                 (* np.nanmean(data) *)
-    let global_std := calc_std data in                                   (* np.nanstd(data) *)
-    if (match global_std with Some s => Qeq_bool s 0 | None => false end) then None
+  (* ---------------------------------------------------------------- *)
+  (* _hotspots_numpy; np.nanmean / np.nanstd of the float32 raster are   *)
+  (* NumPy primitives: parameters here, modelled below                   *)
+  (* ---------------------------------------------------------------- *)
+  Section Hotspots.
+    Variables np_nanmean np_nanstd : grid S -> S.
+    (* None = ZeroDivisionError (global_std == 0) *)
+    Definition hotspots_numpy (data : grid S) (kernel : grid D) : option (grid Z) :=
+      let ksum := fold_left (dadd A) (concat kernel) (dofZ A 0) in        (* kernel.sum(): exact for 0/1 kernels *)
+      let mean_array := convolve_2d data (map (map (fun k => ddiv A k ksum)) kernel) in
+      let global_mean := np_nanmean data in
+      let global_std := np_nanstd data in
+      if deqb A (widen A global_std) (dofZ A 0) then None
+      else
+        let z_array := map (map (fun m => sdiv A (ssub A m global_mean) global_std)) mean_array in
+        Some (calc_hotspots z_array).
+  End Hotspots.
+
+  (* the exact-arithmetic meaning of the two global reductions: sequential float64-accumulated nanmean / nanstd *)
+  Definition seq_nanmean (data : grid S) : S := narrow A (calc_mean data).
+  Definition seq_nanstd (data : grid S) : S := narrow A (calc_std data).
+
+  (* NumPy's float32 reductions as they are computed for a C-contiguous array of at most 128 elements
+     (numpy/_core/src/umath/loops_utils.h.src  pairwise_sum, numpy/lib/_nanfunctions_impl.py):
+       n < 8:  res = 0.; for i: res += a[i]
+       else:   r[0..7] = a[0..7]; for each further full block of 8: r[j] += a[i+j];
+               res = ((r0+r1)+(r2+r3)) + ((r4+r5)+(r6+r7)); then the remaining n % 8 elements one by one *)
+  Fixpoint add8 (r a : list S) : list S :=
+    match r, a with
+    | x :: r', y :: a' => sadd A x y :: add8 r' a'
+    | _, _ => []
+    end.
+  Fixpoint blocks (fuel : nat) (r rest : list S) : list S * list S :=
+    match fuel with
+    | O => (r, rest)
+    | Datatypes.S f => blocks f (add8 r (firstn 8 rest)) (skipn 8 rest)
+    end.
+  Definition pairwise_sum (a : list S) : S :=
+    let n := length a in
+    if (n <? 8)%nat then fold_left (sadd A) a szero
     else
-      let z_array := map (map (fun m => xdiv (xsub m global_mean) global_std)) mean_array in
-      Some (calc_hotspots z_array).
-End Stats.
+      let st := blocks (n / 8 - 1)%nat (firstn 8 a) (skipn 8 a) in
+      let r := fun k => nth k (fst st) (snan A) in
+      let res := sadd A (sadd A (sadd A (r 0%nat) (r 1%nat)) (sadd A (r 2%nat) (r 3%nat)))
+                        (sadd A (sadd A (r 4%nat) (r 5%nat)) (sadd A (r 6%nat) (r 7%nat))) in
+      fold_left (sadd A) (snd st) res.
+  (* _divide_by_count: a.dtype.type(a / b)  — float32 scalar / int64 -> float64, cast back *)
+  Definition divide_by_count (a : S) (cnt : Z) : S := narrow A (ddiv A (widen A a) (dofZ A cnt)).
+  Definition count_valid (flat : list S) : Z := lenZ (filter (fun v => negb (sisnan A v)) flat).
+  Definition np_nanmean_f32 (data : grid S) : S :=
+    let flat := concat data in
+    let arr := map (fun v => if sisnan A v then szero else v) flat in         (* _replace_nan(a, 0) *)
+    divide_by_count (pairwise_sum arr) (count_valid flat).
+  Definition np_nanstd_f32 (data : grid S) : S :=
+    let flat := concat data in
+    let cnt := count_valid flat in
+    let arr := map (fun v => if sisnan A v then szero else v) flat in
+    let avg := divide_by_count (pairwise_sum arr) cnt in
+    let dev := map (fun v => if sisnan A v then szero else ssub A v avg) flat in   (* subtract, then NaN positions := 0 *)
+    let sqr := map (fun v => smul A v v) dev in
+    let var := divide_by_count (pairwise_sum sqr) cnt in
+    ssqrt A var.
+End Kernels.
 
 (* ------------------------------------------------------------------ *)
-(* Gallina twins of the jitted user reducers used by the harness        *)
+(* exact instance: the entry points used by the exact correspondence     *)
+(* stream; the jitted user reducers of the harness have Gallina twins    *)
 (* ------------------------------------------------------------------ *)
-Definition u_range (w : grid xq) : xq := xsub (calc_max w) (calc_min w).        (* np.nanmax(a) - np.nanmin(a) *)
+Fixpoint somes {X} (l : list (option X)) : list X :=
+  match l with
+  | [] => []
+  | Some a :: r => a :: somes r
+  | None :: r => somes r
+  end.
+(* the non-NaN values of an exact array in np.nditer (row-major) order *)
+Definition wvals (w : grid xq) : list Q := somes (concat w).
+Definition qsum (l : list Q) : Q := fold_left Qplus l 0%Q.
+
+Definition E (qsqrt : Q -> Q) : Arith := ExactArith qsqrt.
+Definition E0 : Arith := ExactArith (fun q => q).          (* for the reducers that take no square root *)
+
+Definition xscale (k : Q) (v : xq) : xq := match v with Some x => Some (k * x)%Q | None => None end.
+Definition u_range (w : grid xq) : xq := olift2 Qminus (calc_max E0 w) (calc_min E0 w).   (* np.nanmax(a) - np.nanmin(a) *)
 Definition u_count (w : grid xq) : xq := Some (inject_Z (lenZ (wvals w))).      (* number of non-NaN cells *)
 Definition u_nnan (w : grid xq) : xq :=                                         (* number of NaN cells *)
   Some (inject_Z (lenZ (concat w) - lenZ (wvals w))).
@@ -332,3 +373,36 @@ Definition u_idxsum (w : grid xq) : xq :=                                       
       xscale (inject_Z (i * nc + j + 1)) (get2 None w i j)) (zrange 0 nc))) (zrange 0 (nrows w))))).
 
 Definition qred_x (v : xq) : xq := match v with Some q => Some (Qred q) | None => None end.
+
+Definition q_apply (func : grid xq -> xq) (data kernel : grid xq) : option (grid xq) := focal_apply_A E0 func data kernel.
+Definition q_reducer (qsqrt : Q -> Q) (p : prim) : grid xq -> xq := reducer_of (E qsqrt) p.
+Definition q_stats (qsqrt : Q -> Q) (data kernel : grid xq) names : option (list (grid xq)) :=
+  focal_stats (E qsqrt) data kernel names.
+Definition q_mean (data : grid xq) (passes : Z) (excludes : list xq) : grid xq := mean E0 data passes excludes.
+Definition q_conv (data kernel : grid xq) : grid xq := convolve_2d E0 data kernel.
+Definition q_hot (z : grid xq) : grid Z := calc_hotspots E0 z.
+Definition q_hotspots (qsqrt : Q -> Q) (data kernel : grid xq) : option (grid Z) :=
+  hotspots_numpy (E qsqrt) (np_nanmean_f32 (E qsqrt)) (np_nanstd_f32 (E qsqrt)) data kernel.
+
+(* ------------------------------------------------------------------ *)
+(* float instance: the entry points of the bit-exact stream.  Rasters,   *)
+(* kernels and results cross the boundary as binary64 values; a float32  *)
+(* raster is narrowed on entry (data.astype(np.float32)) and a float32   *)
+(* result widened (exactly) on exit.                                     *)
+(* ------------------------------------------------------------------ *)
+Definition F : Arith := FloatArith.
+Definition in32 (g : grid float) : grid spec_float := map (map b32_of_f64) g.
+Definition out64 (g : grid spec_float) : grid float := map (map f64_of_b32) g.
+
+Definition f_apply (p : prim) (data kernel : grid float) : option (grid float) :=
+  option_map out64 (focal_apply_A F (reducer_of F p) (in32 data) kernel).
+Definition f_stats (data kernel : grid float) (names : list stat_name) : option (list (grid float)) :=
+  option_map (map out64) (focal_stats F (in32 data) kernel names).
+Definition f_mean (data : grid float) (passes : Z) (excludes : list float) : grid float :=
+  mean F data passes excludes.
+Definition f_conv (data kernel : grid float) : grid float := out64 (convolve_2d F (in32 data) kernel).
+Definition f_hot (z : grid float) : grid Z := calc_hotspots F (in32 z).
+Definition f_hotspots (data kernel : grid float) : option (grid Z) :=
+  hotspots_numpy F (np_nanmean_f32 F) (np_nanstd_f32 F) (in32 data) kernel.
+Definition f_global (data : grid float) : float * float :=
+  (f64_of_b32 (np_nanmean_f32 F (in32 data)), f64_of_b32 (np_nanstd_f32 F (in32 data))).
